@@ -145,6 +145,11 @@ SPLIT_TOKENS = [   # tokens the clean-up takes apart (sign, percent sign, unit):
     "<mrow id='r1'><mi id='t1'>x</mi><mspace width='1em'/></mrow>", "<msqrt><mrow id='r2'><mfrac id='t2'><mi>a</mi><mi>b</mi></mfrac><mspace width='1em'/></mrow></msqrt>",
     "<mrow id='r3'><mo>(</mo><mi>x</mi><msup id='t3'><mo>)</mo><mn>2</mn></msup></mrow>", "<mrow><mi id='t4'>x</mi><msup><mrow/><mn>2</mn></msup></mrow>",
     "<mrow><msub id='t5'><mrow/><mn>6</mn></msub><mi id='t6'>C</mi><msup><mrow/><mn>2</mn></msup></mrow>", "<mrow><mtext>&#xA0;</mtext><mn id='t7'>12</mn></mrow>",
+    # a wrapper with an id of its own around a token / 2-D element with an id: the wrapper goes, the inner id stays
+    "<semantics id='r4'><mi id='t10'>x</mi><annotation encoding='application/x-tex'>x</annotation></semantics>",
+    "<mrow><semantics id='r5'><mfrac id='t11'><mi>a</mi><mi>b</mi></mfrac><annotation-xml encoding='MathML-Content'><ci>q</ci></annotation-xml></semantics><mo>+</mo><mn id='t12'>1</mn></mrow>",
+    "<mstyle id='r6' mathcolor='red'><mpadded id='r7'><msqrt id='t13'><mi>x</mi></msqrt></mpadded></mstyle>",
+    "<maction id='r9' actiontype='tooltip'><mi id='t16'>x</mi><mtext>tip</mtext></maction>", "<menclose id='t18' notation='box'><mrow id='r10'><mi id='t19'>x</mi></mrow></menclose>",
     # literals of an intent value have no id: nothing to point a bookmark at
     "<msup intent='power($b,2)'><mi arg='b' id='t8'>x</mi><mn>2</mn></msup>", "<mrow intent='_(3,$a)'><mi arg='a' id='t9'>x</mi><mo>+</mo><mn>2</mn></mrow>", "<mrow><mo>(</mo><mn id='n13'>-6</mn><mo>,</mo><mn id='n14'>-9</mn><mo>)</mo></mrow>",
 ]
@@ -235,8 +240,8 @@ def api_oracle(res, rng):
                     continue
                 got = tag_of.get(aid)
                 if got is None or not (got == tag or (tag == "mn" and got == "mrow") or {got, tag} <= {"msup", "msub", "msubsup", "mmultiscripts"} or (tag == "mrow")):
-                    if tag == "mrow" and got is None:
-                        continue        # a row that is dissolved has no element left to carry its id
+                    if aid.startswith("r") and got is None:
+                        continue        # a row / wrapper that is dissolved has no element left to carry its id
                     res.violation("the author id %r of a <%s> is %s in the returned MathML" % (aid, tag, "gone" if got is None else "on a <%s>" % got), dict(rep, returned=m))
                     nv += 1
                     break
